@@ -89,7 +89,7 @@ Definition maprange_table : list (site * mr_class) := [
   (("internal/report/source.go", "sourcePrinter.generate", "sp.files", 1), MROutOfScope);
   (("internal/report/source.go", "sourcePrinter.generate", "sp.files", 2), MROutOfScope);
   (("internal/report/source.go", "sourcePrinter.initSamples", "sp.insts", 1), MROutOfScope);
-  (("internal/report/source.go", "sourcePrinter.splitIntoRanges", "addrMap", 1), MROutOfScope);
+  (("internal/report/source.go", "sourcePrinter.splitIntoRanges", "addrMap", 1), MRSorted "ints");   (* both address lists are sorted by address (addrs; unprocessed since 5f2b7e6) *)
   (("profile/encode.go", "Profile.postDecode", "numUnits", 1), MRFill);           (* pads each key's own list *)
   (("profile/encode.go", "Profile.preEncode", "s.Label", 1), MRSorted "strings");
   (("profile/encode.go", "Profile.preEncode", "s.NumLabel", 1), MRSorted "strings");
@@ -185,7 +185,11 @@ Definition sort_site_table : list ((string * string * string) * string) := [
   (("internal/report/source.go", "sourcePrinter.functions", "sort.Ints(lines)"), "ints");
   (("internal/report/source.go", "sourcePrinter.generate", "sort.Slice(files, order)"), "out-of-scope:source");
   (("internal/report/source.go", "sourcePrinter.splitIntoRanges", "sort.Slice(addrs, func(..))"), "out-of-scope:source");
+<<<<<<< HEAD
   (("internal/report/source.go", "sourcePrinter.splitIntoRanges", "sort.Slice(unprocessed, func(..))"), "out-of-scope:source");
+=======
+  (("internal/report/source.go", "sourcePrinter.splitIntoRanges", "sort.Slice(unprocessed, func(..))"), "ints");   (* fix 5f2b7e6 (F35) *)
+>>>>>>> w/C08c
   (("profile/encode.go", "Profile.preEncode", "sort.Strings(keys)"), "strings");
   (("profile/encode.go", "Profile.preEncode", "sort.Strings(numKeys)"), "strings");
   (("profile/merge.go", "sortedKeys1", "sort.Strings(keys)"), "strings");
